@@ -1,6 +1,7 @@
 // L2/L8: BoxedUint radix strings (src/uint/boxed/encoding.rs) -- C17 / C16
-// body (proved): BoxedUint::from_str_radix_with_precision_vartime (Ok <=> numeral with value < 2^bits_precision, result has
-//   nlimbs_for(bits_precision) limbs; Err(Precision) => numeral with value >= 2^bits_precision; other errors as in l2_encoding_radix),
+// body (proved): BoxedUint::from_str_radix_with_precision_vartime, exact outcome: Ok <=> numeral with value < 2^bits_precision (result has
+//   nlimbs_for(bits_precision) limbs and that value); Err(Precision) <=> numeral with 2^bits_precision <= value < B^nlimbs;
+//   Err(InputSize) <=> numeral with value >= B^nlimbs (>= 2^bits_precision); Err(Empty) <=> empty body; Err(InvalidDigit) <=> other non-numeral,
 //   BoxedUint::to_string_radix_vartime. Over the contracts of l8_boxed_methods (zero_with_precision: stub, bits: body).
 // not mirrored: from_be_slice / from_le_slice (rchunks / zip), to_be_bytes / to_le_bytes (chunks_exact_mut / zip), from_be_hex (vec!, CtOption),
 //   from_str_radix_vartime + VecDecodeByLimb (Vec::push, `Vec -> Box<[Limb]>` into()).
@@ -91,7 +92,7 @@ pub fn from_str_radix_with_precision_vartime(
 impl BoxedUint {
 pub fn to_string_radix_vartime(&self, radix: u32) -> (ret__: String)
 //@+
-    requires 2 <= radix <= 36, self.limbs@.len() >= 1
+    requires 2 <= radix <= 36, 1 <= self.limbs@.len() <= usize::MAX / 64
     ensures ret__@ == ascii_chars(canon_numeral(self.v() as nat, radix as int))
 //@-
 {
